@@ -902,6 +902,8 @@ def evaluate__apply(self: XPathFunction, context: ta.ContextType = None) \
         func = self.get_argument(context, required=True, cls=XPathFunction)
 
     array_ = self.get_argument(context, index=1, required=True, cls=XPathArray)
+    if func.arity != len(array_):
+        raise self.error('FOAP0001')
 
     try:
         return func(*array_.items(context), context=context)
